@@ -10,6 +10,8 @@ ok2, log2 = vlib.lake_build(["CdnsVerif", "cdnsmodel"])
 print("lake build:", "ok" if ok2 else "FAILED\n" + log2[-4000:])
 try:
     print("harness:", vlib.build_harness("asan"))
+    print("harness (tsan):", vlib.build_harness("tsan"))
+    print("cli tools:", sorted(vlib.build_cli_tools()))
     ok3 = True
 except vlib.BuildError as e:
     print("harness FAILED\n", e)
